@@ -1,0 +1,78 @@
+/*
+ * Verification hooks (only compiled with `--features verif`).
+ *
+ * Emits one JSON object per line for each instrumented step. Events go to
+ * a thread-local buffer when capturing was switched on with [`capture`]
+ * (library harness) and / or are appended to the file named by the
+ * environment variable `SCRUT_VERIF_TRACE` (binary runs). Without either,
+ * [`emit`] does nothing.
+ */
+
+use std::cell::RefCell;
+use std::io::Write;
+use std::sync::atomic::AtomicU64;
+use std::sync::atomic::Ordering;
+
+thread_local! {
+    static BUFFER: RefCell<Option<Vec<String>>> = const { RefCell::new(None) };
+}
+
+static SEQ: AtomicU64 = AtomicU64::new(0);
+
+/// Switch thread-local capturing on (clears the buffer) or off
+pub fn capture(on: bool) {
+    BUFFER.with(|b| *b.borrow_mut() = if on { Some(vec![]) } else { None });
+}
+
+/// Take all events captured on this thread so far
+pub fn take() -> Vec<String> {
+    BUFFER.with(|b| match b.borrow_mut().as_mut() {
+        Some(events) => std::mem::take(events),
+        None => vec![],
+    })
+}
+
+/// Emit one event; `fields` is the inside of a JSON object without braces
+pub fn emit(event: &str, fields: &str) {
+    let captured = BUFFER.with(|b| b.borrow().is_some());
+    let path = std::env::var_os("SCRUT_VERIF_TRACE");
+    if !captured && path.is_none() {
+        return;
+    }
+    let seq = SEQ.fetch_add(1, Ordering::SeqCst);
+    let line = if fields.is_empty() {
+        format!("{{\"ev\":\"{event}\",\"seq\":{seq},\"pid\":{}}}", std::process::id())
+    } else {
+        format!(
+            "{{\"ev\":\"{event}\",\"seq\":{seq},\"pid\":{},{fields}}}",
+            std::process::id()
+        )
+    };
+    if captured {
+        BUFFER.with(|b| {
+            if let Some(events) = b.borrow_mut().as_mut() {
+                events.push(line.clone())
+            }
+        });
+    }
+    if let Some(path) = path {
+        if let Ok(mut file) = std::fs::OpenOptions::new()
+            .create(true)
+            .append(true)
+            .open(path)
+        {
+            let _ = writeln!(file, "{line}");
+        }
+    }
+}
+
+/// Step event of `DiffTool::diff`: cursor state after the named branch
+pub fn diff_step(event: &str, ei: usize, li: usize, match_start: Option<usize>) {
+    emit(
+        event,
+        &format!(
+            "\"ei\":{ei},\"li\":{li},\"ms\":{}",
+            match_start.map_or(0, |m| m + 1)
+        ),
+    );
+}
